@@ -49,11 +49,27 @@ fn check_diagram(run: &Run, name: &str, d: &Diagram, labelname: &str, label: &(d
         let circ: Vec<usize> = (0..(1u32 << n)).map(|s| l.resolved_by(&state_of(s, n)).components().len()).collect();
         // stepwise resolution: smoothing crossing i first and the remaining crossings afterwards
         // (a diagram that already contains a smoothed crossing followed by actual ones)
+        let mut partial: Vec<(Vec<Option<bool>>, usize, usize)> = vec![]; // (smoothing pattern, crossings left, closed curves)
         let mut step: Vec<(usize, u32, u32, usize, usize)> = vec![]; // (i, b, s1, crossings left after the first step, circles)
         if n >= 1 && n <= 4 {
             for i in 0..n {
                 for b in 0..2u32 {
-                    let l1 = l.resolved_at(i, if b == 1 { yui::bitseq::Bit::Bit1 } else { yui::bitseq::Bit::Bit0 });
+                    let bit = |b: u32| if b == 1 { yui::bitseq::Bit::Bit1 } else { yui::bitseq::Bit::Bit0 };
+                    let l1 = l.resolved_at(i, bit(b));
+                    // the partially resolved diagram itself (a non-initial state for every observer)
+                    let mut pat = vec![None; n];
+                    pat[i] = Some(b == 1);
+                    partial.push((pat.clone(), l1.crossing_num(), l1.components().len()));
+                    // and a second smoothing: index j counts the remaining actual crossings
+                    for j in 0..n - 1 {
+                        for b2 in 0..2u32 {
+                            let l2 = l1.resolved_at(j, bit(b2));
+                            let orig = if j < i { j } else { j + 1 };
+                            let mut pat2 = pat.clone();
+                            pat2[orig] = Some(b2 == 1);
+                            partial.push((pat2, l2.crossing_num(), l2.components().len()));
+                        }
+                    }
                     for s1 in 0..(1u32 << (n - 1)) {
                         let c = l1.resolved_by(&state_of(s1, n - 1)).components().len();
                         step.push((i, b, s1, l1.crossing_num(), c));
@@ -65,9 +81,9 @@ fn check_diagram(run: &Run, name: &str, d: &Diagram, labelname: &str, label: &(d
         let seifert = l.seifert_circles().len();
         let m = l.mirror();
         let msigns: Vec<i64> = m.crossing_signs().iter().map(|s| if s.is_positive() { 1 } else { -1 }).collect();
-        (comps, signs, np, nn, w, edges, circ, ori, seifert, msigns, m.writhe(), l.crossing_num(), l.is_knot(), step)
+        (comps, signs, np, nn, w, edges, circ, ori, seifert, msigns, m.writhe(), l.crossing_num(), l.is_knot(), step, partial)
     });
-    let (comps, signs, np, nn, w, edges, circ, ori, seifert, msigns, mw, cn, is_knot, step) = match r {
+    let (comps, signs, np, nn, w, edges, circ, ori, seifert, msigns, mw, cn, is_knot, step, partial) = match r {
         Ok(x) => x,
         Err(p) => {
             run.fail(&key, &format!("panicked: {p}"), detail());
@@ -123,6 +139,13 @@ fn check_diagram(run: &Run, name: &str, d: &Diagram, labelname: &str, label: &(d
         let (_, r) = d.circles(s);
         if circ[s as usize] != r {
             fail(format!("resolution {s:b}: {} circles, expected {r}", circ[s as usize]));
+        }
+    }
+    for (pat, left, curves) in partial {
+        let smoothed = pat.iter().filter(|x| x.is_some()).count();
+        let want = d.curves(&pat);
+        if left != n - smoothed || curves != want {
+            fail(format!("partially resolved diagram {pat:?}: crossing_num = {left}, components = {curves}; expected {} and {want}", n - smoothed));
         }
     }
     for (i, b, s1, left, c) in step {
